@@ -47,6 +47,12 @@ CHECKS = {
              "(all doubles incl. inf/nan, unbounded ints) and one node, at a solver-chosen position, is replaced "
              "by a solver-chosen member of a hostile-value zoo. Any escaping exception is a counterexample.",
         design="4/C08"),
+    "C11": dict(
+        text="Bounded symbolic execution of the real refinement methods: for every 2-/3-subset of the non-value "
+             "refinements of int/float/str (with and without a fixed value) ALL permutations are applied with the "
+             "same symbolic parameters; the solver must confirm on all paths that either every order raises "
+             "DeclarationError or every order succeeds with pair-wise equal schemas.",
+        design="4/C11"),
 }
 
 NOT_YET = {
